@@ -561,7 +561,7 @@ def flows_to(fn, local, extra_identity=(), through_clone=False, _seen=None, whol
             kind = u[0]
             if kind == 'stmt':
                 _, bb, idx, s, role, proj = u
-                if whole_only and proj:
+                if whole_only and any(tok != '*' for tok in proj):
                     continue
                 d = s['d']
                 rv = s['rv']
@@ -576,7 +576,7 @@ def flows_to(fn, local, extra_identity=(), through_clone=False, _seen=None, whol
                     work.append((d['l'], via + [d['l']]))
             elif kind == 'callarg':
                 _, bb, t, k, proj = u
-                if whole_only and proj:
+                if whole_only and any(tok != '*' for tok in proj):
                     continue
                 idk = is_identity_call(t, extra_identity)
                 if idk is None and through_clone and call_matches(t, ['core::clone::Clone::clone']):
